@@ -41,6 +41,8 @@ pub enum Case {
   Mutant { choices: Vec<u32>, noncore: bool, m: Mut },
   /// CRC-valid file made of arbitrary bytes after a plausible header
   Forged { len: u16, seed: u64, keep_header_from: Vec<u32> },
+  /// literal file contents (hex), as saved by a fuzzing campaign or written by hand; `seal` recomputes the CRC-32 trailer first
+  Raw { hex: String, seal: bool },
 }
 
 fn specials(len: u64) -> Vec<u64> { vec![0, 1, len, len.wrapping_add(1), len.wrapping_sub(1), len / 2, 1 << 31, (1u64 << 32) - 1, 1 << 32, 1 << 63, u64::MAX, u64::MAX - 3, 0x7fff_ffff_ffff_ffff, 12, 13] }
@@ -74,7 +76,7 @@ impl Prop for C07 {
   }
   fn crash_sig(c: &Case, what: &str) -> String {
     match c { Case::Mutant { choices, noncore, .. } if what == "hang" && base_program(choices, *noncore).features.iter().any(|f| f == "set" || f == "comprehension") => "C07|hang|set-constant".to_string(),
-      Case::Mutant { choices, noncore, m } => { let l = locate(choices, *noncore, m); let coarse = if let Some(p) = l.find('@') { l[p + 1..].split('=').next().unwrap_or("").to_string() } else if l.starts_with("chunk") { "chunk".to_string() } else { l }; format!("C07|{}|{}", what, coarse) } Case::Sweep { .. } => format!("C07|{}|uncorrected-fault", what), Case::Forged { .. } => format!("C07|{}|forged", what) }
+      Case::Mutant { choices, noncore, m } => { let l = locate(choices, *noncore, m); let coarse = if let Some(p) = l.find('@') { l[p + 1..].split('=').next().unwrap_or("").to_string() } else if l.starts_with("chunk") { "chunk".to_string() } else { l }; format!("C07|{}|{}", what, coarse) } Case::Sweep { .. } => format!("C07|{}|uncorrected-fault", what), Case::Forged { .. } => format!("C07|{}|forged", what), Case::Raw { .. } => format!("C07|{}|raw", what) }
   }
   fn rule() -> &'static str {
     "case ∈ {Sweep: a compiler-emitted file (program from the shared generator) → round trip, EVERY truncation length, a stripe of single-bit \
@@ -91,6 +93,7 @@ impl Prop for C07 {
       Case::Sweep { choices, noncore, .. } => format!("sweep over bytecode of: {}", base_program(choices, *noncore).lines.join("; ")),
       Case::Mutant { choices, noncore, m } => format!("{:?} ({}) on bytecode of: {}", m, locate(choices, *noncore, m), base_program(choices, *noncore).lines.join("; ")),
       Case::Forged { len, seed, .. } => format!("forged file len {} seed {}", len, seed),
+      Case::Raw { hex, seal } => format!("raw file of {} bytes{}: {}", hex.len() / 2, if *seal { " (CRC re-sealed)" } else { "" }, hex.chars().take(200).collect::<String>()),
     }
   }
   fn check(c: &Case, _cx: &Cx) -> Verdict { check(c) }
@@ -172,6 +175,31 @@ fn apply(b: &[u8], m: &Mut) -> Vec<u8> {
 enum Load { Ok(ParsedProgram), Err(String), Panic(String) }
 fn load(b: &[u8]) -> Load {
   match catch_unwind(AssertUnwindSafe(|| ParsedProgram::from_bytes(b))) { Err(e) => Load::Panic(panic_msg(e)), Ok(Err(e)) => Load::Err(e.kind_name()), Ok(Ok(p)) => Load::Ok(p) }
+}
+
+/// "allocates without bound": the largest single allocation request made while loading / decoding a file must stay within a bound that
+/// is linear in the file size (64 bytes requested per file byte, at least 1 MiB — emitted files need a few kB). A request above it is
+/// driven by a length field, not by the data present.
+fn alloc_bound(file_len: usize) -> usize { (file_len * 64).max(1 << 20) }
+fn load_probed(b: &[u8]) -> (Load, usize) { reset_alloc_probe(); let l = load(b); (l, largest_request()) }
+fn hostile(v: &mut Verdict, b: &[u8], place: &str, what: &str) {
+  v.evals += 1;
+  let (l, req) = load_probed(b);
+  if req > alloc_bound(b.len()) { v.fail(format!("C07|unbounded-allocation|load|{}", place.split('=').next().unwrap_or(place)), format!("from_bytes on a {}-byte {} ({}) requested a single allocation of {} bytes", b.len(), what, place, req)); return; }
+  match l {
+    Load::Err(k) => { v.label(format!("rejected:{}", k)); v.key = Some(format!("{}|{}|err:{}", what, place, k)); }
+    Load::Panic(msg) => { v.fail(format!("C07|panic|load|{}", norm(&msg)), format!("from_bytes panicked on a {} ({}): {}", what, place, msg)); }
+    Load::Ok(pg) => {
+      reset_alloc_probe();
+      let r = exercise(&pg);
+      let req = largest_request();
+      if req > alloc_bound(b.len()) { v.fail(format!("C07|unbounded-allocation|post-load|{}", place.split('=').next().unwrap_or(place)), format!("decoding a loaded {}-byte {} ({}) requested a single allocation of {} bytes", b.len(), what, place, req)); return; }
+      match r {
+        Ok(s) => { v.label(format!("accepted:{}", s)); v.key = Some(format!("{}|{}|ok|{}", what, place, s)); }
+        Err(msg) => { v.fail(format!("C07|panic|post-load|{}", norm(&msg)), format!("{} ({}) loaded, then: {}", what, place, msg)); }
+      }
+    }
+  }
 }
 
 /// totality of everything reachable from a successfully loaded (possibly hostile) program
@@ -278,19 +306,9 @@ fn check(c: &Case) -> Verdict {
       v.label("class:mutant");
       let Some(base) = base_bytes(choices, *noncore) else { v.discard("no base file"); return v; };
       if base.len() < 140 { v.discard("tiny base"); return v; }
-      let hostile = apply(&base, m);
+      let bytes = apply(&base, m);
       let place = locate(choices, *noncore, m);
-      v.evals += 1;
-      match load(&hostile) {
-        Load::Err(k) => { v.label(format!("rejected:{}", k)); v.key = Some(format!("mutant|{}|err:{}", place, k)); }
-        Load::Panic(msg) => { v.fail(format!("C07|panic|load|{}", norm(&msg)), format!("from_bytes panicked on a CRC-valid file ({}): {}", place, msg)); }
-        Load::Ok(pg) => {
-          match exercise(&pg) {
-            Ok(s) => { v.label(format!("accepted:{}", s)); v.key = Some(format!("mutant|{}|ok|{}", place, s)); }
-            Err(msg) => { v.fail(format!("C07|panic|post-load|{}", norm(&msg)), format!("CRC-valid file ({}) loaded, then: {}", place, msg)); }
-          }
-        }
-      }
+      hostile(&mut v, &bytes, &place, "mutant");
     }
     Case::Forged { len, seed, keep_header_from } => {
       v.label("class:forged");
@@ -298,12 +316,13 @@ fn check(c: &Case) -> Verdict {
       let mut b: Vec<u8> = (0..*len).map(|_| { x ^= x << 13; x ^= x >> 7; x ^= x << 17; (x >> 24) as u8 }).collect();
       if let Some(base) = base_bytes(keep_header_from, false) { if base.len() >= 129 && b.len() >= 133 { b[..129].copy_from_slice(&base[..129]); } } else { b[..4].copy_from_slice(b"MECH"); }
       fix_crc(&mut b);
-      v.evals += 1;
-      match load(&b) {
-        Load::Err(k) => { v.key = Some(format!("forged|err:{}", k)); }
-        Load::Panic(m) => v.fail(format!("C07|panic|load|{}", norm(&m)), format!("forged file: {}", m)),
-        Load::Ok(pg) => { match exercise(&pg) { Ok(s) => { v.key = Some(format!("forged|ok|{}", s)); } Err(m) => v.fail(format!("C07|panic|post-load|{}", norm(&m)), format!("forged file: {}", m)) } }
-      }
+      hostile(&mut v, &b, "forged", "forged");
+    }
+    Case::Raw { hex, seal } => {
+      v.label("class:raw");
+      let mut b: Vec<u8> = (0..hex.len() / 2).filter_map(|i| u8::from_str_radix(&hex[2 * i..2 * i + 2], 16).ok()).collect();
+      if *seal { fix_crc(&mut b); }
+      hostile(&mut v, &b, "raw", "raw");
     }
   }
   v
